@@ -109,7 +109,8 @@ def PROOFS():
             ("vf.contracts.transforms_c", [T + "Center.__call__", T + "Scale.__call__", T + "BSpline.__call__", T + "BSpline._initialize", T + "BSpline.eval",
                                            T + "Polynomial.__init__"]),
             ("vf.contracts.variable_c", [f for f in variable_c.FUNCTIONS if f.endswith("eval_new_data_categoric")] +
-             ["formulae.terms.variable.Variable.eval_categoric", "formulae.terms.call.Call.eval_categoric"]),
+             ["formulae.terms.variable.Variable.eval_categoric", "formulae.terms.call.Call.eval_categoric",
+              "formulae.terms.variable.Variable.eval_new_data_numeric", "formulae.terms.variable.Variable.eval_new_data"]),
             # property lemmas: a transform / a categorical factor fitted on a frame maps any selection of its rows to the training rows
             ("vf.contracts.lemmas_c", ["vf.proplemmas.c06.center_rows", "vf.proplemmas.c06.scale_rows", "vf.proplemmas.c06.categoric_rows", "vf.proplemmas.c06.bspline_rows"])]
 
